@@ -14,6 +14,9 @@ import (
 type (
 	NamedMap       map[string]any
 	NamedStrMap    map[string]string
+	NamedIntMap    map[string]int
+	NamedFloatMap  map[string]float64
+	NamedBoolMap   map[string]bool
 	NamedString    string
 	NamedInt       int
 	NamedBool      bool
